@@ -30,6 +30,7 @@ struct C08World {
   std::vector<int> rx_count;
   std::vector<int> nstart;
   std::vector<std::set<int>> inflight;      // per session: mids of CONs sent, not yet ACKed/RST/given up
+  int failing_session = -1;                 // set while coap_session_disconnected() runs for that session
   bool exceeded_reported = false;           // only the first exceedance of a run is reported (later ones are consequences)
   std::vector<int> last_started;            // per session: last submission whose first transmission was seen
   std::vector<std::string> last_release;    // per session: what released an NSTART slot last
@@ -50,8 +51,11 @@ int sess_index(coap_session_t *s) {
 void nack_cb(coap_session_t *s, const coap_pdu_t *sent, const coap_nack_reason_t reason, const coap_mid_t mid) {
   g->w.log("NACK sess=%d mid=%04x reason=%d sent=%d", sess_index(s), (unsigned)mid & 0xffff, (int)reason, sent != nullptr);
   if (!sent) { g->w.count("probe.nack_unmatched_rst"); return; }
-  g->r3->on_nack(0, s, mid, reason);
   int i = find_sub_by_token(cx::tok_of(sent));
+  // A request that was acknowledged (Empty ACK) and still waits for its separate response is reported when its session fails:
+  // that NACK concerns the pending response, not the concluded Confirmable transmission, and R3 does not judge it.
+  if (g->failing_session >= 0 && g->failing_session == sess_index(s) && i >= 0 && g->subs[(size_t)i].acked) g->w.count("probe.nack_for_pending_response");
+  else g->r3->on_nack(0, s, mid, reason);
   if (i < 0) return;
   g->subs[(size_t)i].nacks++;
   int si = sess_index(s);
@@ -109,13 +113,18 @@ struct C08 : Property {
         else if (x < 0.75) faults.push_back({{"link", link}, {"idx", k}, {"act", "dup"}, {"n", 1}, {"delay_us", {r.range(0, 2000000)}}});
         else faults.push_back({{"link", link}, {"idx", k}, {"act", "delay"}, {"delay_us", {r.range(0, 2000000)}}});
       }
+    // "if the session fails instead": the application tells libcoap that the session has failed (public
+    // coap_session_disconnected(), what the (D)TLS and stream layers call themselves) while messages are in flight and held
+    json fails = json::array();
+    if (r.chance(0.2)) fails.push_back({{"t_ms", r.chance(0.5) ? r.range(0, 50) : r.range(50, t + 3000)}, {"sess", r.below((uint64_t)n_sess)}});
     p["config"] = cfg;
     p["ops"] = ops;
     p["replies"] = replies;
     p["faults"] = faults;
+    p["fails"] = fails;
     return p;
   }
-  std::vector<std::string> shrink_keys() override { return {"faults", "replies", "ops", "write_cuts", "stalls"}; }
+  std::vector<std::string> shrink_keys() override { return {"faults", "replies", "ops", "write_cuts", "stalls", "fails"}; }
 
   // ---- reliable-transport flavour: "anything submitted before the session is established is held ... if the session fails
   // instead, each held Confirmable is reported by exactly one NACK". A TCP client session against a raw stream peer whose accept,
@@ -465,6 +474,38 @@ struct C08 : Property {
         }
       }
     });
+    // session failures
+    std::vector<bool> failed((size_t)n_sess, false);
+    for (auto &f : plan.value("fails", json::array())) {
+      size_t si = (size_t)(f.value("sess", 0) % n_sess);
+      w.at_ns(w.now() + (uint64_t)f.value("t_ms", 0) * 1000000ull + 1, [&cw, &w, &failed, &res, si]() {
+        if (failed[si]) return;
+        failed[si] = true;
+        size_t held = 0, flying = cw.inflight[si].size();
+        std::set<int> fl = cw.inflight[si];
+        std::vector<int> before;
+        for (auto &s : cw.subs) { before.push_back(s.nacks); if (s.sess == (int)si && s.con && s.submitted && !s.send_failed && !s.first_tx_count && !s.nacks) held++; }
+        w.log("FAIL session %zu (%zu in flight, %zu held)", si, flying, held);
+        w.count("fault.session_failed");
+        if (held) w.count("probe.session_failed_with_held");
+        if (flying) w.count("probe.session_failed_with_inflight");
+        cw.failing_session = (int)si;
+        coap_session_disconnected(cw.sess[si], COAP_NACK_NOT_DELIVERABLE);
+        cw.failing_session = -1;
+        // every Confirmable of this session that was held or in flight has now been reported, exactly once
+        for (size_t i = 0; i < cw.subs.size(); i++) {
+          Sub &s = cw.subs[i];
+          if (s.sess != (int)si || !s.con || !s.submitted || s.send_failed) continue;
+          bool was_held = !s.first_tx_count && !before[i];
+          bool was_flying = s.first_tx_count && fl.count(s.mid) && !before[i];
+          if ((was_held || was_flying) && s.nacks - before[i] != 1)
+            res.violate("C08.session_failure_nacks", was_held ? (s.nacks == before[i] ? "held_not_nacked" : "held_nacked_twice") : (s.nacks == before[i] ? "inflight_not_nacked" : "inflight_nacked_twice"),
+                        strfmt("session %zu failed: submission %zu (%s) was reported by %d NACKs instead of one", si, i, was_held ? "held" : "in flight", s.nacks - before[i]));
+        }
+        cw.inflight[si].clear();
+        cw.last_release[si] = "after_session_failure";
+      }, 0);
+    }
     // workload
     for (size_t i = 0; i < cw.subs.size(); i++) {
       int64_t t_ms = plan["ops"][i].value("t_ms", (int64_t)0);
